@@ -215,3 +215,223 @@ def logics_check(tier, seed):
 
 
 CHECKS = {"logics": logics_check}
+
+
+# ---------------------------------------------------------------------------
+# C16: command sequences against a reference model of SMT-LIB's assertion stack
+# ---------------------------------------------------------------------------
+class RefStack:
+    """levels of (assertions, goals); goals: ('obj', kind, term) | ('soft', id, clause, weight)"""
+    def __init__(self):
+        self.levels = [([], [])]
+
+    def push(self, n):
+        for _ in range(n):
+            self.levels.append(([], []))
+
+    def pop(self, n):
+        for _ in range(n):
+            self.levels.pop()
+
+    def reset(self):
+        self.levels = [([], [])]
+
+    def depth(self):
+        return len(self.levels) - 1
+
+    def assertions(self):
+        return [a for lv in self.levels for a in lv[0]]
+
+    def goals(self):
+        out, pos = [], {}
+        for lv in self.levels:
+            for g in lv[1]:
+                if g[0] == "obj":
+                    out.append(["obj", g[1], g[2]])
+                else:
+                    if g[1] not in pos:
+                        pos[g[1]] = len(out)
+                        out.append(["soft", g[1], []])
+                    out[pos[g[1]]][2].append((g[2], g[3]))
+        return out
+
+
+def make_stub(env):
+    from pysmt.solvers.solver import IncrementalTrackingSolver, SolverOptions
+    from pysmt.logics import QF_BOOL
+
+    class Stub(IncrementalTrackingSolver):
+        OptionsClass = SolverOptions
+        LOGICS = [QF_BOOL]
+
+        def __init__(self):
+            IncrementalTrackingSolver.__init__(self, env, QF_BOOL)
+            self.backend = RefStack()
+            self.illegal = None
+
+        def _add_assertion(self, f, named=None):
+            self.backend.levels[-1][0].append(f)
+            return f
+
+        def _push(self, levels=1):
+            self.backend.push(levels)
+
+        def _pop(self, levels=1):
+            if levels > self.backend.depth():
+                self.illegal = "pop %d with %d levels" % (levels, self.backend.depth())
+                raise RuntimeError(self.illegal)
+            self.backend.pop(levels)
+
+        def _solve(self, assumptions=None):
+            return True
+
+        def _reset_assertions(self):
+            self.backend.reset()
+    return Stub
+
+
+def tracking_sequences(tier, seed):
+    env = fresh_env()
+    m = env.formula_manager
+    a, b, c = m.Symbol("ta"), m.Symbol("tb"), m.Symbol("tc")
+    Stub = make_stub(env)
+    ops = [("assert", a), ("assert", b), ("push", 0), ("push", 1), ("push", 2), ("pop", 0), ("pop", 1), ("pop", 2),
+           ("reset", None), ("is_sat", c), ("is_valid", c), ("solve", None), ("read", None)]
+    L = 4 if tier == "quick" else 5
+    n = nontriv = 0
+    viol, samples = [], []
+
+    def run(seq):
+        s, ref = Stub(), RefStack()
+        for i, (o, x) in enumerate(seq):
+            if o == "pop" and x > ref.depth():
+                return None            # illegal in SMT-LIB: not part of the property
+            if o == "assert":
+                s.add_assertion(x)
+                ref.levels[-1][0].append(x)
+            elif o == "push":
+                s.push(x)
+                ref.push(x)
+            elif o == "pop":
+                s.pop(x)
+                ref.pop(x)
+            elif o == "reset":
+                s.reset_assertions()
+                ref.reset()
+            elif o == "is_sat":
+                s.is_sat(x)
+            elif o == "is_valid":
+                s.is_valid(x)
+            elif o == "solve":
+                s.solve()
+            got = list(s.assertions)
+            if got != ref.assertions():
+                return {"key": "tracking", "sequence": [str(q) for q in seq[:i + 1]], "assertions": [str(g) for g in got],
+                        "expected": [str(g) for g in ref.assertions()]}
+            if s.illegal:
+                return {"key": "tracking-illegal-stream", "sequence": [str(q) for q in seq[:i + 1]], "error": s.illegal}
+            if s.backend.assertions() != ref.assertions() or s.backend.depth() != ref.depth():
+                return {"key": "tracking-backend-out-of-sync", "sequence": [str(q) for q in seq[:i + 1]],
+                        "backend_levels": s.backend.depth(), "expected_levels": ref.depth()}
+        return False
+    for k in range(1, L + 1):
+        for seq in itertools.product(ops, repeat=k):
+            try:
+                r = run(seq)
+            except Exception as e:
+                r = {"key": "tracking-exception", "sequence": [str(q) for q in seq], "error": repr(e)}
+            if r is None:
+                continue
+            n += 1
+            if len({o for o, _ in seq}) > 1:
+                nontriv += 1
+            if r:
+                viol.append(r)
+                break
+            if k == 3 and len(samples) < 2 and seq[0][0] == "assert" and seq[1][0] == "is_sat":
+                samples.append([str(q) for q in seq])
+        if viol:
+            break
+    return {"name": "tracking_sequences", "bounded": True, "exhaustive": True, "evaluations": n, "distinct_nontrivial": nontriv,
+            "rule": "all legal sequences of length <= %d over assert a/b, push 0..2, pop 0..2, reset-assertions, is_sat, "
+                    "is_valid, solve on a stub IncrementalTrackingSolver; assertions and backend levels compared with a "
+                    "reference assertion stack after every step; non-trivial = at least two different commands" % L,
+            "samples": samples, "violations": viol}
+
+
+def script_sequences(tier, seed):
+    import pysmt.smtlib.commands as smtcmd
+    from pysmt.smtlib.script import SmtLibScript, SmtLibCommand
+    env = fresh_env()
+    m = env.formula_manager
+    a, b = m.Symbol("sa"), m.Symbol("sb")
+    x = m.Symbol("sx", INT)
+    ops = [("assert", a), ("assert", b), ("push", 0), ("push", 1), ("push", 2), ("pop", 1), ("pop", 2), ("reset", None),
+           ("soft", ("g", a)), ("soft", ("g", b)), ("soft", ("h", a)), ("min", x), ("max", x), ("check", None)]
+    L = 4 if tier == "quick" else 5
+    n = nontriv = 0
+    viol, samples = [], []
+    for k in range(1, L + 1):
+        for seq in itertools.product(ops, repeat=k):
+            ref, sc, legal = RefStack(), SmtLibScript(), True
+            for o, v in seq:
+                if o == "assert":
+                    sc.add(smtcmd.ASSERT, [v])
+                    ref.levels[-1][0].append(v)
+                elif o == "push":
+                    sc.add(smtcmd.PUSH, [v])
+                    ref.push(v)
+                elif o == "pop":
+                    if v > ref.depth():
+                        legal = False
+                        break
+                    sc.add(smtcmd.POP, [v])
+                    ref.pop(v)
+                elif o == "reset":
+                    sc.add(smtcmd.RESET_ASSERTIONS, [])
+                    ref.reset()
+                elif o == "soft":
+                    sc.add(smtcmd.ASSERT_SOFT, [v[1], [(":id", v[0]), (":weight", m.Real(2))]])
+                    ref.levels[-1][1].append(("soft", v[0], v[1], m.Real(2)))
+                elif o == "min":
+                    sc.add(smtcmd.MINIMIZE, [v, []])
+                    ref.levels[-1][1].append(("obj", "min", v))
+                elif o == "max":
+                    sc.add(smtcmd.MAXIMIZE, [v, []])
+                    ref.levels[-1][1].append(("obj", "max", v))
+                elif o == "check":
+                    sc.add(smtcmd.CHECK_SAT, [])
+            if not legal:
+                continue
+            n += 1
+            if len({o for o, _ in seq}) > 1:
+                nontriv += 1
+            try:
+                f, goals = sc.get_last_formula(mgr=m, return_optimizations=True)
+            except Exception as e:
+                viol.append({"key": "script-exception", "sequence": [str(q) for q in seq], "error": repr(e)})
+                break
+            want_f = m.And(ref.assertions())
+            got_goals = []
+            for g in goals:
+                if g.is_maxsmt_goal():
+                    got_goals.append(["soft", [(c_, w_) for c_, w_ in g.soft]])
+                else:
+                    got_goals.append(["obj", "min" if g.is_minimization_goal() else "max", g.term()])
+            want_goals = [["soft", w[2]] if w[0] == "soft" else w for w in ref.goals()]
+            if f is not want_f or got_goals != want_goals:
+                viol.append({"key": "script", "sequence": [str(q) for q in seq], "formula": str(f), "expected_formula": str(want_f),
+                             "goals": str(got_goals), "expected_goals": str(want_goals)})
+                break
+            if k == 3 and len(samples) < 2 and seq[0][0] == "soft":
+                samples.append([str(q) for q in seq])
+        if viol:
+            break
+    return {"name": "script_sequences", "bounded": True, "exhaustive": True, "evaluations": n, "distinct_nontrivial": nontriv,
+            "rule": "all legal command lists of length <= %d over assert a/b, push 0..2, pop 1..2, reset-assertions, "
+                    "assert-soft with ids g/h, minimize, maximize, check-sat; get_last_formula(return_optimizations=True) "
+                    "compared with a reference assertion stack" % L,
+            "samples": samples, "violations": viol}
+
+
+CHECKS.update({"tracking_sequences": tracking_sequences, "script_sequences": script_sequences})
